@@ -84,3 +84,34 @@ func TestTables(t *testing.T) {
 	}
 	fmt.Printf("%d texts, %d accepted\n", len(table), acc)
 }
+
+// TestForms runs the form pairs and prints the finding classes; a development aid.
+func TestForms(t *testing.T) {
+	if os.Getenv("C16_FORMS") == "" {
+		t.Skip("no C16_FORMS")
+	}
+	forms := allForms()
+	set := ownCfgSet(formConfigs())
+	classes := map[string]int{}
+	var first = map[string]string{}
+	n := 0
+	for _, a := range forms {
+		for _, b := range forms {
+			for ci := range set.cfgs {
+				fs, _ := checkHistory([]string{a, b}, set, ci)
+				n++
+				for _, f := range fs {
+					cl := f.Cfg + "/" + f.Class
+					classes[cl]++
+					if first[cl] == "" {
+						first[cl] = fmt.Sprintf("%q then %q\n     expected %s\n     got      %s", a, b, f.Expected, f.Got)
+					}
+				}
+			}
+		}
+	}
+	fmt.Printf("%d histories over %d forms\n", n, len(forms))
+	for cl, c := range classes {
+		fmt.Printf("%7d %s\n        %s\n", c, cl, first[cl])
+	}
+}
